@@ -327,6 +327,11 @@ pub(crate) struct ProtocolState {
     // packets this may take a number of [encode -> write to socket -> write completion] cycles.
     pub(crate) current_operation: Option<u64>,
 
+    // Set when the ack timeout of the current operation came due while its packet was only partially
+    // written.  The operation cannot be removed until the encoder is done with it, so the timeout is
+    // applied on the first service after the packet has been fully written.
+    pub(crate) current_operation_ack_timeout_elapsed: bool,
+
     // Tracks the packet ids of incoming qos2 publishes that haven't been released yet.  When
     // we receive a qos2 publish whose packet id is in here, we can ignore it because it's a
     // duplicate delivery.  Packet ids are removed when we receive a pubrel for it.
@@ -429,6 +434,7 @@ impl ProtocolState {
             resubmit_operation_queue: VecDeque::new(),
             high_priority_operation_queue: VecDeque::new(),
             current_operation: None,
+            current_operation_ack_timeout_elapsed: false,
             qos2_incomplete_incoming_publishes: HashSet::new(),
             allocated_packet_ids: HashMap::new(),
             pending_publish_operations: HashMap::new(),
@@ -578,6 +584,7 @@ impl ProtocolState {
         self.pending_write_completion = false;
         self.operations.clear();
         self.operation_ack_timeouts.clear();
+        self.current_operation_ack_timeout_elapsed = false;
         self.user_operation_queue.clear();
         self.resubmit_operation_queue.clear();
         self.high_priority_operation_queue.clear();
@@ -1001,6 +1008,7 @@ impl ProtocolState {
         self.next_ping_timepoint = None;
         self.ping_timeout_timepoint = None;
         self.operation_ack_timeouts.clear();
+        self.current_operation_ack_timeout_elapsed = false;
 
         self.apply_connection_closed_to_current_operation()?;
         self.apply_slow_start_initialization();
@@ -1284,6 +1292,13 @@ impl ProtocolState {
 
         while let Some(id) = self.get_next_ack_timeout() {
             self.operation_ack_timeouts.pop();
+            if self.current_operation == Some(id) {
+                // the operation's follow-up packet (a QoS 2 PUBREL) is partially written and the encoder
+                // still needs it; the timeout is applied as soon as the write has finished
+                self.current_operation_ack_timeout_elapsed = true;
+                continue;
+            }
+
             result = fold_mqtt_result(result, self.complete_operation_as_failure(id, GneissError::new_ack_timeout()));
         }
 
@@ -1383,7 +1398,12 @@ impl ProtocolState {
         operation.ping_extension_base_timepoint = Some(now);
 
         let id = operation.id;
-        self.start_operation_ack_timeout(id, now);
+        if self.current_operation_ack_timeout_elapsed {
+            self.current_operation_ack_timeout_elapsed = false;
+            self.operation_ack_timeouts.push(Reverse(OperationTimeoutRecord { id, timeout: now }));
+        } else {
+            self.start_operation_ack_timeout(id, now);
+        }
 
         self.current_operation = None;
     }
